@@ -280,11 +280,31 @@ Proof.
   cbn [positions app render]. unfold script_content_outside. cbn [json_encode]. unfold json_string.
   cbn [app map]. rewrite map_app, map_app. cbn [map app]. rewrite <- app_assoc. reflexivity.
 Qed.
-Lemma rend_hole_str q ps i r :
-  rend (MStr q E0 ps) (SH i :: r) = map SB (replace (nth i vals [])) ++ rend (MStr q E0 (PcHole i :: ps)) r.
+Lemma rend_hole_str q e ps i r : e <> E1 ->
+  rend (MStr q e ps) (SH i :: r) = map SB (replace (nth i vals [])) ++ rend (MStr q E0 (PcHole i :: ps)) r.
 Proof.
-  unfold rend. rewrite run_cons. cbn [step fst snd positions app render]. unfold script_content_inside.
-  rewrite map_app. reflexivity.
+  intros NE. unfold rend. rewrite run_cons.
+  destruct e; [|congruence|]; cbn [step fst snd positions app render]; unfold script_content_inside;
+  rewrite map_app; reflexivity.
+Qed.
+
+(* after backslash CR, anything but an LF is read as after a complete continuation *)
+Lemma run_e2 vs q ps X : match X with SB d :: _ => Byte.eqb d x0a = false | _ => True end ->
+  run vs (MStr q E2 ps) X = run vs (MStr q E0 ps) X.
+Proof.
+  destruct X as [|[d|j] X']; intros H; [reflexivity| |reflexivity].
+  rewrite !run_cons. cbn [step]. rewrite H. reflexivity.
+Qed.
+
+Lemma replace_head_not_lf v : match replace v with c :: _ => Byte.eqb c x0a = false | [] => True end.
+Proof.
+  destruct (replace_clean v) as [C _]. pose proof (clean_no x0a eq_refl _ C) as N.
+  destruct (replace v) as [|c l]; [exact I|]. cbn [forallb] in N. apply andb_prop in N as [N _].
+  apply negb_true_iff in N. exact N.
+Qed.
+Lemma replace_nonempty b t : replace (b :: t) <> [].
+Proof.
+  intros E. pose proof (replace_roundtrip QSingle (b :: t)) as RT. rewrite E in RT. cbn in RT. discriminate RT.
 Qed.
 
 Lemma walk_cons ok m x r : walk ok vals m (x :: r) = true ->
@@ -302,8 +322,8 @@ Proof.
   induction r as [|[d|j] r IH]; intros q ps W Hd.
   - exact I.
   - rewrite rend_SB. exact Hd.
-  - rewrite rend_hole_str. apply walk_cons in W as (O & _ & W). cbn [step fst] in W.
-    cbn [ok_junction] in O. apply andb_prop in O as [O1 O2].
+  - rewrite rend_hole_str by discriminate. apply walk_cons in W as (O & _ & W). cbn [step fst] in W.
+    cbn [ok_junction] in O. apply andb_prop in O as [O _]. apply andb_prop in O as [O1 O2].
     pose proof (head_replace _ O1) as HR.
     destruct (replace (nth j vals [])) as [|b l]; [|exact HR].
     cbn [map app]. apply IH; [exact W|].
@@ -362,16 +382,27 @@ Proof.
       change (skeleton [EPos false; ETok (TStr (Some (scrub (nth i vals []))))]) with [TStr None].
       change (skeleton [ETok (TStr (lit_value QDouble [] (rev (push (json_body (nth i vals [])) [])) []))]) with [TStr None].
       f_equal. apply IH; [reflexivity|exact W].
-    + destruct e; try (cbn in NS; discriminate NS).
+    + assert (NE : e <> E1) by (intros ->; cbn in NS; discriminate NS).
       destruct m' as [|q' e' ps'| | | |]; cbn [sim] in S; try contradiction. destruct S as [<- <-].
-      rewrite rend_hole_str. cbn [step fst] in W.
-      rewrite pass_replace.
-      * rewrite run_cons. cbn [step fst snd]. rewrite skeleton_app.
-        change (skeleton [EPos true]) with (@nil tok). cbn [app].
-        apply IH; [split; reflexivity|exact W].
-      * apply rend_head_ok; [exact W|].
-        cbn [ok_junction] in O. apply andb_prop in O as [_ O].
-        destruct r as [|[d|k] r']; try exact I. apply negb_true_iff in O. exact O.
+      rewrite rend_hole_str by exact NE.
+      assert (W' : walk (ok_junction vals) vals (MStr q E0 (PcHole i :: ps)) r = true) by (destruct e; [exact W|congruence|exact W]).
+      cbn [ok_junction] in O. apply andb_prop in O as [O OC]. apply andb_prop in O as [O1 O2].
+      assert (HR : head_ok (rend (MStr q E0 (PcHole i :: ps)) r)).
+      { apply rend_head_ok; [exact W'|]. destruct r as [|[d|k] r']; try exact I. apply negb_true_iff in O2. exact O2. }
+      assert (E20 : run [] (MStr q e ps') (map SB (replace (nth i vals [])) ++ rend (MStr q E0 (PcHole i :: ps)) r)
+                  = run [] (MStr q E0 ps') (map SB (replace (nth i vals [])) ++ rend (MStr q E0 (PcHole i :: ps)) r)).
+      { destruct e; [reflexivity|congruence|]. apply run_e2. cbn [after_bs_cr] in OC.
+        pose proof (replace_head_not_lf (nth i vals [])) as HL.
+        destruct (nth i vals []) as [|b t] eqn:V.
+        - change (replace []) with (@nil byte). cbn [map app]. cbn [cr_lf_kept] in OC.
+          destruct r as [|[d|k] r']; [rewrite rend_nil; exact I| |discriminate OC].
+          rewrite rend_SB. apply negb_true_iff in OC. exact OC.
+        - pose proof (replace_nonempty b t) as NN. destruct (replace (b :: t)) as [|c l]; [congruence|]. exact HL. }
+      rewrite E20. rewrite pass_replace by exact HR.
+      rewrite (run_cons vals). replace (step vals (MStr q e ps) (SH i :: r)) with (MStr q E0 (PcHole i :: ps), [EPos true]) by (destruct e; [reflexivity|congruence|reflexivity]).
+      cbn [fst snd]. rewrite skeleton_app.
+      change (skeleton [EPos true]) with (@nil tok). cbn [app].
+      apply IH; [split; reflexivity|exact W'].
 Qed.
 End Conf.
 
@@ -522,12 +553,16 @@ Proof.
     destruct x as [c|i]; [|cbn in NS; discriminate NS].
     unfold tstep, tstep_gen. cbn. destruct (Byte.eqb c x0d); eexists; split; try reflexivity; constructor.
   - (* after backslash CR *)
-    destruct x as [c|i]; [|cbn in NS; discriminate NS].
-    destruct (Byte.eqb c x0a) eqn:L.
-    + rewrite tstep_str_plain, toggle_str. apply byte_eqb_eq in L. subst c.
-      replace (Byte.eqb x0a (qbyte q)) with false by (destruct q; reflexivity). cbn.
-      eexists; split; [reflexivity|constructor].
-    + destruct (str_char q E2 ps c r n (or_intror (conj eq_refl L)) NS) as (k' & T & Rl & P). rewrite P. eauto.
+    destruct x as [c|i].
+    + destruct (Byte.eqb c x0a) eqn:L.
+      * rewrite tstep_str_plain, toggle_str. apply byte_eqb_eq in L. subst c.
+        replace (Byte.eqb x0a (qbyte q)) with false by (destruct q; reflexivity). cbn.
+        eexists; split; [reflexivity|constructor].
+      * destruct (str_char q E2 ps c r n (or_intror (conj eq_refl L)) NS) as (k' & T & Rl & P). rewrite P. eauto.
+    + (* a hole right after backslash CR: the continuation is complete, the hole is inside the literal *)
+      unfold tstep, tstep_gen. cbn [ok_tracker] in O. cbn.
+      destruct (skip_ws r) eqn:SK; [discriminate O|]. apply negb_true_iff in O.
+      eexists; split; [reflexivity|]. constructor; rewrite SK; [discriminate|exact O].
   - (* the second slash of "//" *)
     unfold tstep, tstep_gen. cbn. eexists; split; [reflexivity|constructor].
   - (* line comment *)
